@@ -42,6 +42,11 @@ def handle (kind : String) (args : List String) (impl : String) : String :=
         let want := " | ".intercalate outs
         if impl == want then "ok"
         else s!"DIFF model={want} impl={impl} ; SPEC replies-differ-from-results-in-request-order impl={impl}"
+  | "c01.half", [nS] =>
+    -- every request read gets its reply, also when the client has finished its own direction after the last request
+    match nS.toNat? with
+    | some n => if impl == s!"replies={n}" then "ok" else s!"SPEC request-read-but-never-answered impl={impl}"
+    | none => "bad-op"
   | "c01.held", [nS] =>
     -- the replies of answered requests reach the client whatever the delay of the node serving a later request
     match nS.toNat? with
